@@ -86,6 +86,11 @@ def currents_func(a):
     if not cur:
         return None
     ramp = a.get("current_ramp")
+    extra = a.get("currents_ramped")
+    if extra:
+        # base assignment held constant + a second balanced assignment ramped up: I(t) = base + min(1, t/T) * extra
+        names = list(dict.fromkeys(list(cur) + list(extra)))
+        return lambda t, cur=cur, extra=extra, T=ramp: {k: cur.get(k, 0.0) + min(1.0, t / T) * extra.get(k, 0.0) for k in names}
     if ramp:
         return lambda t, cur=cur, T=ramp: {k: v * min(1.0, t / T) for k, v in cur.items()}
     return lambda t, cur=cur: dict(cur)
@@ -101,7 +106,7 @@ def solve_args(tdgl, a, out):
     kw = {}
     f = currents_func(a)
     if f is not None:
-        kw["terminal_currents"] = f if a.get("current_ramp") else dict(a["currents"])
+        kw["terminal_currents"] = f if a.get("current_ramp") else dict(a["currents"])      # a dict may omit terminals (they carry no current)
     field = a.get("field", 0.0)
     if a.get("field_ramp"):
         from tdgl.sources import ConstantField, LinearRamp
@@ -130,7 +135,7 @@ def read_frames(path):
     return frames
 
 
-def run_solver(tdgl, a, tmp, capture=None):
+def run_solver(tdgl, a, tmp, capture=None, dev=None):
     """-> (accepted?, frames, dev, error text).  With capture = {} the REAL TDGLSolver object of the run is stored in
     capture["solver"] (run-time wrapper on TDGLSolver.solve, DESIGN.md 4.1; arguments and results untouched)."""
     from tdgl.solver.solver import TDGLSolver
@@ -145,7 +150,8 @@ def run_solver(tdgl, a, tmp, capture=None):
         TDGLSolver.solve = w_solve
     try:
         os.chdir(work)
-        dev = make_device(tdgl, a)
+        if dev is None:
+            dev = make_device(tdgl, a)
         opts, kw = solve_args(tdgl, a, os.path.join(work, "out.h5"))
         try:
             sol = tdgl.solve(dev, opts, **kw)
@@ -182,7 +188,7 @@ def rounding_seed(solver, dt):
 def nums_of(a):
     """the requested currents as integers over a common denominator (for the acceptance clause)"""
     den = a.get("currents_den", 1000)
-    vals = list((a.get("currents") or {}).values())
+    vals = list((a.get("currents") or {}).values()) + list((a.get("currents_ramped") or {}).values())
     nums = [int(round(v * den)) for v in vals]
     if any(abs(n / den - v) > 1e-12 * max(1, abs(v)) for n, v in zip(nums, vals)):
         raise RuntimeError(f"currents {vals} are not multiples of 1/{den}")
@@ -261,8 +267,30 @@ def cell_outflow(mesh, J):
     return out, flux
 
 
+def terminal_geometry(dev):
+    """Which boundary edges / boundary sites of the CURRENT mesh lie in which terminal, decided here from the terminal polygons
+    and the mesh arrays (not read from Device.terminal_info(), whose bookkeeping is part of what is checked)."""
+    mesh = dev.mesh
+    em = mesh.edge_mesh
+    xi = float(dev.coherence_length.magnitude)
+    bidx = np.asarray(em.boundary_edge_indices)
+    centres = xi * np.asarray(em.centers)[bidx]
+    pts = xi * np.asarray(mesh.sites)
+    bsites = np.asarray(mesh.boundary_indices)
+    geo = {}
+    for t in dev.terminals:
+        be = np.asarray(t.contains_points(centres, index=True), dtype=int)
+        inside = np.asarray(t.contains_points(pts[bsites], index=True), dtype=int)
+        geo[t.name] = {"bedges": be, "sites": bsites[inside]}
+    return geo
+
+
 def conservation_run(tdgl, a, tmp):
     ok, frames, dev, err = run_solver(tdgl, a, tmp)
+    return conservation_trace(dev, a, ok, frames, err)
+
+
+def conservation_trace(dev, a, ok, frames, err):
     nums, den = nums_of(a)
     ev = [{"kind": "ctor", "nums": nums, "den": den, "accepted": bool(ok)}]
     tr = {"cfg": {"adaptive": bool(a.get("adaptive", False)), "window": int(a.get("window", 3)), "driven": bool(ok and any(nums)),
@@ -279,13 +307,13 @@ def conservation_run(tdgl, a, tmp):
     # fine level: the device's own K0 and xi (documented properties), so that the last digits of mu0 / Phi0 do not matter
     I0 = float((dev.K0 * dev.coherence_length / 4).to(a.get("current_units", "uA")).magnitude)
     tr["I0_ratio"] = I0 / I0_doc
-    tinfo = {t.name: t for t in dev.terminal_info()}
+    tinfo = terminal_geometry(dev)
     f_cur = currents_func(a)
     term_cell = np.zeros(len(mesh.sites), dtype=bool)
     share = {}          # terminal -> per-site share of the terminal's length (half of each boundary edge at the site)
     for name, t in tinfo.items():
         sh = np.zeros(len(mesh.sites))
-        be = np.asarray(t.boundary_edge_indices)
+        be = t["bedges"]
         np.add.at(sh, bedges[be, 0], blen[be] / 2)
         np.add.at(sh, bedges[be, 1], blen[be] / 2)
         share[name] = sh
@@ -296,7 +324,7 @@ def conservation_run(tdgl, a, tmp):
             psi0 = np.ones(len(mesh.sites), dtype=complex)
             if tpsi is not None:
                 for t in tinfo.values():
-                    psi0[np.asarray(t.site_indices)] = tpsi
+                    psi0[t["sites"]] = tpsi
             init = bool(np.array_equal(fr["psi"], psi0) and not fr["mu"].any() and not fr["supercurrent"].any()
                         and not fr["normal_current"].any())
             ev.append({"kind": "frame0", "init": init})
@@ -324,6 +352,65 @@ def conservation_run(tdgl, a, tmp):
         ev.append({"kind": "cons", "step": fr["step"], "cells": cells, "terms": terms})
         tr["nframes"] += 1
     return tr
+
+
+def fresh_device(tdgl, kind="tee", points=48):
+    """A NEW Device object (never the cached harness/devices.py ones): it is re-meshed / transformed by the history runs."""
+    from tdgl.geometry import box
+
+    layer = tdgl.Layer(coherence_length=1.0, london_lambda=2.0, thickness=0.1, gamma=10.0)
+    W, H = 5.0, 3.0
+    film = tdgl.Polygon("film", points=box(W, H, points=points))
+    terms = [tdgl.Polygon("source", points=box(0.1, H, center=(-W / 2, 0))), tdgl.Polygon("drain", points=box(0.1, H, center=(W / 2, 0)))]
+    if kind in ("tee", "cross"):
+        terms.append(tdgl.Polygon("top", points=box(1.5, 0.1, center=(0, H / 2))))
+    if kind == "cross":
+        terms.append(tdgl.Polygon("bottom", points=box(1.5, 0.1, center=(0.3, -H / 2))))
+    return tdgl.Device(kind, layer=layer, film=film, holes=[], terminals=terms, probe_points=[(-1.5, 0.0), (1.5, 0.0)], length_units="um")
+
+
+def history_run(tdgl, a, tmp):
+    """A HISTORY on one Device object: mesh, solve, then re-mesh with a different boundary discretisation / move / rotate /
+    reflect the device, and solve again; the frames of BOTH solves are checked (one trace)."""
+    import warnings
+
+    dev = fresh_device(tdgl, a.get("dev", "tee"))
+    dev.make_mesh(max_edge_length=a.get("mel", 1.0), smooth=0)
+    a1 = dict(a, currents=a.get("currents_first", a["currents"]), solve_time=a.get("solve_time_first", 0.1))
+    ok1, fr1, _, err1 = run_solver(tdgl, a1, tmp, dev=dev)
+    t1 = conservation_trace(dev, a1, ok1, fr1, err1)
+    h = a["history"]
+    with warnings.catch_warnings():
+        warnings.simplefilter("ignore")
+        if h == "remesh":
+            dev.make_mesh(max_edge_length=a.get("mel2", 0.3), smooth=a.get("smooth2", 0))
+            dev2 = dev
+        elif h == "translate":
+            dev.translate(dx=1.25, dy=-0.5, inplace=True)
+            dev2 = dev
+        elif h == "rotate":
+            dev2 = dev.rotate(90.0)
+            dev2.make_mesh(max_edge_length=a.get("mel2", 0.6), smooth=0)
+        elif h == "reflect":
+            dev2 = dev.scale(xfact=-1.0, yfact=1.5)
+            dev2.make_mesh(max_edge_length=a.get("mel2", 0.6), smooth=0)
+        elif h == "remesh-rotate-remesh":
+            dev.make_mesh(max_edge_length=0.5, smooth=0)
+            dev2 = dev.rotate(30.0)
+            dev2.make_mesh(max_edge_length=0.9, smooth=0)
+            dev2.terminal_info()
+            dev2.make_mesh(max_edge_length=a.get("mel2", 0.3), smooth=0)
+        else:
+            raise ValueError(h)
+    ok2, fr2, _, err2 = run_solver(tdgl, a, tmp, dev=dev2)
+    t2 = conservation_trace(dev2, a, ok2, fr2, err2)
+    t2["ev"] = t1["ev"] + t2["ev"]
+    t2["worst_cell"] = max(t1["worst_cell"], t2["worst_cell"])
+    t2["worst_term"] = max(t1["worst_term"], t2["worst_term"])
+    t2["nframes"] += t1["nframes"]
+    t2["cfg"]["driven"] = bool(t1["cfg"]["driven"] or t2["cfg"]["driven"])
+    t2["sites"] = [int(len(dev.mesh.sites)), int(len(dev2.mesh.sites))]
+    return t2
 
 
 # ---------------------------------------------------------------- acceptance of balanced assignments
